@@ -1,13 +1,176 @@
 /-
-Props/C09.lean — property theorems for C09 (Loop visits every element exactly once, honours Break/Continue).
+Props/C09.lean — property theorems for C09 (Loop visits every element exactly once and honours Break and
+Continue).
+
+`loop_correct`: for the repaired emitter model, every well-formed tree, every well-typed value, every path
+and every iterator script, the sequence of groups the iterator receives (`obsOf`: key text with its strconv
+annotations, inspector name, shape, value) and the way Loop ends are accepted by the independent
+specification `loopAccepts`: the path's collection is visited element by element — slices in index order
+with keys "0".."n-1", maps entry by entry with a key text that parses back to the entry's key — the
+callbacks stop right after the first Break, Continue proceeds, a key is handed over exactly when the
+iterator asked for it, and a path that denotes no collection produces no callback.
+
+Hypotheses beyond `NodeWF`/`WT`: `LoopKeysOK` — on the keys of the looped map whose text the script asks
+for (and only those): not a `byte` key type, not a nil pointer key, strconv round trip of the oracle, float32
+keys representable. Nothing is assumed for slices, nor for maps whose keys are not asked for.
+`RootOK`/`EmitOK` are not needed.
+
+The model of the current tree differs on `loop-root-map-skipped` (`repo_not_correct`) and `nil-root-panics`
+(`repo_nil_root_panics`).
 -/
-import InspectorModel.Gen.Loop
-import InspectorModel.Spec.LoopSpec
+import InspectorModel.Proofs.C09
 namespace Inspector.C09
 
 /-- A scalar is never looped. -/
 theorem basic_no_callbacks (cfg : GenCfg) (sc : LoopScript) (ft : Val → Bytes) (i : Info) (v : Val) (p : List Seg) :
     (loopN cfg sc ft (.basic i) v p).groups = [] := by
   simp [loopN]
+
+/-- C09 for the repaired emitter. `o` is the strconv oracle for key texts (the harness annotates every key
+text the iterator received), `ft` the float text oracle the driver passes to the model. The groups are
+observed through `obsOf o`, the mapping under which the driver compares model and implementation
+(`modelGroupStr` / `showObsGroup`). -/
+theorem loop_correct (sc : LoopScript) (o : Bytes → Seg) (ft : Val → Bytes) (n : Node) (v : Val) (p : List Seg)
+    (f : Form) (hf : rootOf f = .ok) (hwf : NodeWF n = true) (hwt : WT n v = true)
+    (hk : LoopKeysOK o ft sc n v p = true) :
+    loopAccepts sc n v p ((loopM GenCfg.fixed sc ft n f v p).groups.map (obsOf o))
+      (loopM GenCfg.fixed sc ft n f v p).fin = true := by
+  have hr : rootOfC GenCfg.fixed f = .ok := by
+    unfold rootOfC
+    rw [hf]
+  have hcfg : GenCfg.fixed.loopRootMapSkipped = false := rfl
+  have hN := loopN_correct o ft sc p n v hwf hwt hk
+  unfold LoopOK at hN
+  unfold loopM
+  simp only [hr, hcfg, Bool.not_false, Bool.and_true]
+  cases p with
+  | cons s rest => simpa using hN
+  | nil =>
+    cases n with
+    | basic i => exact loopAccepts_nothing sc _ v [] (loopTarget_leaf _ _ _ rfl)
+    | struct i chld => exact loopAccepts_nothing sc _ v [] (by unfold loopTarget; split <;> rfl)
+    | map i k mv => simpa using hN
+    | slice i e => simpa using hN
+
+/-- Consequence spelled out: a path none of whose prefixes denotes a collection produces no callbacks. -/
+theorem loop_no_collection (sc : LoopScript) (ft : Val → Bytes) (n : Node) (v : Val) (p : List Seg)
+    (f : Form) (hf : rootOf f = .ok) (hwf : NodeWF n = true) (hwt : WT n v = true)
+    (ht : loopTarget n v p = .nothing) :
+    (loopM GenCfg.fixed sc ft n f v p).groups = [] ∧ (loopM GenCfg.fixed sc ft n f v p).fin = .done := by
+  have hk : LoopKeysOK (fun t => { text := t }) ft sc n v p = true := by
+    unfold LoopKeysOK; rw [ht]
+  have h := loop_correct sc (fun t => { text := t }) ft n v p f hf hwf hwt hk
+  unfold loopAccepts at h
+  rw [ht] at h
+  simp only [Bool.and_eq_true, List.isEmpty_iff, List.map_eq_nil_iff, beq_iff_eq] at h
+  exact h
+
+/-- Consequence spelled out for slices: the number of callbacks is the position of the first Break plus
+one, or the length; no hypothesis on keys. -/
+theorem loop_slice_count (sc : LoopScript) (ft : Val → Bytes) (i : Info) (e : Node) (nl : Bool) (es : List Val)
+    (c : Nat) (f : Form) (hf : rootOf f = .ok) (hb : (i.typn == "[]byte") = false) (hp : i.ptr = false) :
+    (loopM GenCfg.fixed sc ft (.slice i e) f (.slice nl es c) []).groups.length = expectedCount sc es.length ∧
+    (loopM GenCfg.fixed sc ft (.slice i e) f (.slice nl es c) []).fin = .done := by
+  have hr : rootOfC GenCfg.fixed f = .ok := by
+    unfold rootOfC
+    rw [hf]
+  simp [loopM, hr, loopN, hb, hp, derefIf, loopElems_count]
+
+/-- A typed-nil (or otherwise unusable) root is refused by the repaired emitter: no callback, no panic. -/
+theorem loop_nil_root (sc : LoopScript) (ft : Val → Bytes) (n : Node) (v : Val) (p : List Seg) (f : Form)
+    (hf : rootOf f ≠ .ok) :
+    (loopM GenCfg.fixed sc ft n f v p).groups = [] ∧ (loopM GenCfg.fixed sc ft n f v p).fin = .done := by
+  have hr : rootOfC GenCfg.fixed f = .early := by
+    cases f <;> simp [rootOf] at hf <;> rfl
+  unfold loopM
+  simp only [hr, ite_self, and_self]
+
+section NonVacuity
+/-- `type T struct { M map[int32]string; L []Inner; P *map[*string]int }`, `type Inner struct { B string }`. -/
+def exNode : Node :=
+  .struct { typn := "T" } [
+    .map { typn := "map[int32]string", name := "M" }
+      (.basic { typn := "int32", typu := "int32" }) (.basic { typn := "string", typu := "string" }),
+    .slice { typn := "[]Inner", name := "L" } (.struct { typn := "Inner" } [.basic { typn := "string", typu := "string", name := "B" }]),
+    .map { typn := "map[*string]int", name := "P", ptr := true }
+      (.basic { typn := "string", typu := "string", ptr := true }) (.basic { typn := "int", typu := "int" })]
+def exVal : Val :=
+  .struct [.map false [.int 1, .int (-2), .int 3] [.str (strBytes "a"), .str (strBytes "b"), .str (strBytes "c")],
+           .slice false [.struct [.str (strBytes "x")], .struct [.str (strBytes "y")], .struct [.str (strBytes "z")]] 4,
+           .ptr (.map false [.ptr (.str (strBytes "k"))] [.int 7])]
+def seg (t : String) : Seg := { text := strBytes t }
+/-- The strconv oracle on the texts that occur. -/
+def exOracle (t : Bytes) : Seg :=
+  if t == strBytes "1" then { text := t, pi := some 1, pu := some 1, pf := .ok 1048576 }
+  else if t == strBytes "-2" then { text := t, pi := some (-2), pf := .ok (-2097152) }
+  else if t == strBytes "3" then { text := t, pi := some 3, pu := some 3, pf := .ok 3145728 }
+  else { text := t }
+def exFt (_ : Val) : Bytes := []
+/-- Keys wanted; Continue, then Break at the second element. -/
+def exScript : LoopScript := { wantKey := [true], ctl := [2, 1] }
+/-- Keys wanted; never Break. -/
+def exScriptAll : LoopScript := { wantKey := [true], ctl := [0] }
+
+example : NodeWF exNode = true ∧ WT exNode exVal = true ∧ RootOK exNode = true ∧ EmitOK exNode = true := by decide
+example : LoopKeysOK exOracle exFt exScript exNode exVal [seg "M"] = true := by decide
+example : LoopKeysOK exOracle exFt exScriptAll exNode exVal [seg "M"] = true := by decide
+example : LoopKeysOK exOracle exFt exScriptAll exNode exVal [seg "P"] = true := by decide
+example : LoopKeysOK exOracle exFt exScript exNode exVal [seg "L"] = true := by decide
+/-- Map `M`: two callbacks (Continue, then Break), keys "1" and "-2". -/
+example : ((loopM GenCfg.fixed exScript exFt exNode .ptr exVal [seg "M"]).groups.map (·.key)) =
+    [some (strBytes "1"), some (strBytes "-2")] := by decide
+/-- Slice `L`: two of the three elements, keys "0" and "1", handed over with the element type's inspector. -/
+example : ((loopM GenCfg.fixed exScript exFt exNode .ptr exVal [seg "L"]).groups.map (fun g => (g.key, g.ins))) =
+    [(some (strBytes "0"), "Inner"), (some (strBytes "1"), "Inner")] := by decide
+example : ((loopM GenCfg.fixed exScriptAll exFt exNode .ptr exVal [seg "L"]).groups.length) = 3 := by decide
+/-- The acceptance relation is not trivially true: dropping a group is rejected. -/
+example : loopAccepts exScriptAll exNode exVal [seg "L"]
+    (((loopM GenCfg.fixed exScriptAll exFt exNode .ptr exVal [seg "L"]).groups.map (obsOf exOracle)).drop 1) .done = false := by
+  decide
+
+/-- `type RM map[string]int` with one entry. -/
+def exRootMap : Node :=
+  .map { typn := "RM" } (.basic { typn := "string", typu := "string" }) (.basic { typn := "int", typu := "int" })
+def exRootMapVal : Val := .map false [.str (strBytes "a")] [.int 1]
+
+example : NodeWF exRootMap = true ∧ WT exRootMap exRootMapVal = true ∧ RootOK exRootMap = true ∧
+    LoopKeysOK exOracle exFt exScriptAll exRootMap exRootMapVal [] = true := by decide
+
+/-- Known finding `loop-root-map-skipped`: the emitted Loop of the current tree returns at once for a root
+map type on the empty path; the property demands one callback per entry. -/
+theorem repo_not_correct :
+    loopAccepts exScriptAll exRootMap exRootMapVal []
+      ((loopM GenCfg.repo exScriptAll exFt exRootMap .ptr exRootMapVal []).groups.map (obsOf exOracle))
+      (loopM GenCfg.repo exScriptAll exFt exRootMap .ptr exRootMapVal []).fin = false := by
+  decide
+
+/-- The same input is accepted for the repaired emitter (an instance of `loop_correct`). -/
+example :
+    loopAccepts exScriptAll exRootMap exRootMapVal []
+      ((loopM GenCfg.fixed exScriptAll exFt exRootMap .ptr exRootMapVal []).groups.map (obsOf exOracle))
+      (loopM GenCfg.fixed exScriptAll exFt exRootMap .ptr exRootMapVal []).fin = true := by
+  decide
+
+/-- `type RS []int`. -/
+def exRootSlice : Node := .slice { typn := "RS" } (.basic { typn := "int", typu := "int" })
+
+/-- Known finding `nil-root-panics`: Loop of the current tree on a typed-nil root slice panics
+(`range *x` with `x == nil`); the repaired emitter returns (`loop_nil_root`). -/
+theorem repo_nil_root_panics :
+    (loopM GenCfg.repo exScriptAll exFt exRootSlice .nilPtr (.slice true [] 0) []).fin = .panic := by
+  decide
+
+/-- The key hypothesis is needed — a nil pointer key whose text is asked for: the emitted `*k` panics even
+in the repaired model, and `LoopKeysOK` is what excludes it. -/
+def exPtrKeyMap : Node :=
+  .map { typn := "PM" } (.basic { typn := "string", typu := "string", ptr := true }) (.basic { typn := "int", typu := "int" })
+example : NodeWF exPtrKeyMap = true ∧ WT exPtrKeyMap (.map false [.nilptr] [.int 1]) = true ∧
+    LoopKeysOK exOracle exFt exScriptAll exPtrKeyMap (.map false [.nilptr] [.int 1]) [] = false ∧
+    (loopM GenCfg.fixed exScriptAll exFt exPtrKeyMap .ptr (.map false [.nilptr] [.int 1]) []).fin = .panic := by
+  decide
+/-- … and it asks nothing when the iterator does not want keys. -/
+example : LoopKeysOK exOracle exFt { wantKey := [false], ctl := [0] } exPtrKeyMap (.map false [.nilptr] [.int 1]) [] = true := by
+  decide
+end NonVacuity
 
 end Inspector.C09
